@@ -200,16 +200,14 @@ def translate(ra, dec, r, theta):
     ra, dec : (float, float)
         The translated position (degrees).
     """
-    factor = np.sin(np.radians(dec)) * np.cos(np.radians(r))
-    factor += np.cos(np.radians(dec)) \
-            * np.sin(np.radians(r)) \
-            * np.cos(np.radians(theta))
-    dec_out = np.degrees(np.arcsin(factor))
-
-    y = np.sin(np.radians(theta)) * np.sin(np.radians(r)) \
-        * np.cos(np.radians(dec))
-    x = np.cos(np.radians(r)) - np.sin(np.radians(dec)) \
-        * np.sin(np.radians(dec_out))
+    # unit vector of the translated point in the frame where the start is at
+    # RA = 0; arctan2 keeps full precision near the poles (arcsin does not)
+    sdec, cdec = np.sin(np.radians(dec)), np.cos(np.radians(dec))
+    sr, cr = np.sin(np.radians(r)), np.cos(np.radians(r))
+    x = cdec * cr - sdec * sr * np.cos(np.radians(theta))
+    y = sr * np.sin(np.radians(theta))
+    z = sdec * cr + cdec * sr * np.cos(np.radians(theta))
+    dec_out = np.degrees(np.arctan2(z, np.hypot(x, y)))
     ra_out = ra + np.degrees(np.arctan2(y, x))
     return ra_out, dec_out
 
